@@ -287,4 +287,4 @@ def apply_initial_state(fs, init):
         fs.make_dirs(d)
     for p, text in init.get("files", {}).items():
         fs.make_dirs(p.rsplit("/", 1)[0])
-        fs.write_bytes(p, text.encode())
+        fs.write_bytes(p, text.encode(), init.get("modes", {}).get(p, 0o644))
